@@ -7,6 +7,14 @@ ENUM_BASES = {"byte": (8, False), "uint8": (8, False), "uint16": (16, False), "u
               "int16": (16, True), "int32": (32, True), "int64": (64, True)}
 
 
+def wrap(v, bits, signed):
+    """the value of v in a Go integer type of the given width (two's complement wrap)"""
+    v &= (1 << bits) - 1
+    if signed and v >> (bits - 1):
+        v -= 1 << bits
+    return v
+
+
 def hx(s):
     return s.encode().hex() if isinstance(s, str) else bytes(s).hex()
 
@@ -130,6 +138,7 @@ def effective(items, L):
             if it["kind"] != "union":
                 for f in it.get(key, []):
                     f["comment"] = None
+                    f.pop("tags", None)
     return c
 
 
@@ -152,7 +161,8 @@ def expected_dump(items):
         return hx(x.get("comment") or "")
 
     def field(pre, f):
-        out.append("%sfield %s c=%s dm=%s d=%s %s []" % (pre, hx(f["name"]), cm(f), hx(f.get("dep") or ""), "true" if f.get("dep") is not None else "false", ty_dump(f["type"])))
+        tags = ",".join("%s:%s:%s" % (hx(k), hx(v), "true" if b else "false") for k, v, b, _ in f.get("tags", []))
+        out.append("%sfield %s c=%s dm=%s d=%s %s [%s]" % (pre, hx(f["name"]), cm(f), hx(f.get("dep") or ""), "true" if f.get("dep") is not None else "false", ty_dump(f["type"]), tags))
 
     def struct(pre, it):
         out.append("%sstruct %s c=%s op=%d ro=%s" % (pre, hx(it["name"]), cm(it), opcode_value(it), "true" if it.get("readonly") else "false"))
@@ -239,6 +249,20 @@ class AstGen:
         idxs = sorted(r.below(255) + 1 for _ in range(n))
         for j in range(n):
             f = {"type": self.ty(), "name": self.name("f"), "comment": self.comment()}
+            if self.comments and r.below(3) == 0:
+                # field tags are written as comment lines of a fixed shape; they also stay part of the doc comment
+                tags = []
+                for _ in range(1 + r.below(2)):
+                    if r.below(3) == 0:
+                        key = r.choice(["omitempty", "flag", "x"])
+                        tags.append((key, "", True, "[tag(%s)]" % key))
+                    else:
+                        key = r.choice(["json", "db", "yaml"])
+                        val = r.choice(["name", "a,omitempty", "more colons::", "f%d" % self.n])
+                        tags.append((key, val, False, '[tag(%s:"%s")]' % (key, val)))
+                f["tags"] = tags
+                lines = ([f["comment"]] if f["comment"] is not None else []) + [t[3] for t in tags]
+                f["comment"] = "\n".join(lines)
             if r.below(5) == 0:
                 f["dep"] = r.choice(["old", "", "use other", "a \\\"quoted\\\" word"]) if False else r.choice(["old", "", "use other"])
             if message:
@@ -277,15 +301,13 @@ class AstGen:
         for j in range(1 + r.below(4)):
             lo, hi = (-(1 << (bits - 1)), (1 << (bits - 1)) - 1) if signed else (0, (1 << bits) - 1)
             m = {"name": self.name("K"), "comment": self.comment()}
-            if flags and names and r.below(2):
-                # an expression over earlier members, fully parenthesised so that its meaning does not depend on precedence
-                a, b = r.choice(names), r.choice(names)
-                op = r.choice(["|", "&"])
-                v = (a[1] | b[1]) if op == "|" else (a[1] & b[1])
-                m["text"], m["value"] = "%s %s %s" % (a[0], op, b[0]), v
+            if flags and r.below(3):
+                # an expression tree over literals and earlier members in the enum's width-typed arithmetic, fully parenthesised
+                # so that its meaning does not depend on operator precedence
+                m["text"], m["value"] = self.flag_expr(names, bits, signed, 1 + r.below(3), top=True)
             elif flags:
                 sh = r.below(min(bits - 1, 30))
-                m["text"], m["value"] = "1 << %d" % sh, 1 << sh
+                m["text"], m["value"] = "1 << %d" % sh, wrap(1 << sh, bits, signed)
             else:
                 v = r.choice([lo, hi, 0, 1, 2, 7, 255 if hi >= 255 else 3]) if r.below(2) else lo + r.next() % (hi - lo + 1)
                 tries = 0
@@ -304,6 +326,34 @@ class AstGen:
             it["members"].append(m)
         it["opcode"] = None
         return it
+
+    def flag_expr(self, names, bits, signed, depth, top=False):
+        r = self.rng
+        if depth == 0 or r.below(4) == 0:
+            if names and r.below(2):
+                n = r.choice(names)
+                return n[0], n[1]
+            lo, hi = (0, (1 << (bits - 1)) - 1) if signed else (0, (1 << bits) - 1)
+            v = r.choice([0, 1, 2, 3, 0xF0, hi, hi >> 1, 1 << (bits - 2)]) if r.below(2) else r.next() % (hi + 1)
+            return (("0x%x" % v) if r.below(2) else str(v)), v
+        op = r.choice(["|", "&", "<<", ">>", "|", "<<"])
+        at, av = self.flag_expr(names, bits, signed, depth - 1)
+        if op in ("<<", ">>"):
+            k = r.below(bits + 2)
+            bt, bv = str(k), k
+        else:
+            bt, bv = self.flag_expr(names, bits, signed, depth - 1)
+        if op == "|":
+            v = av | bv
+        elif op == "&":
+            v = av & bv
+        elif op == "<<":
+            v = (av << bv) if bv < 256 else 0
+        else:
+            v = av >> bv
+        v = wrap(v, bits, signed)
+        txt = "%s %s %s" % (at, op, bt)
+        return (txt if top else "(" + txt + ")"), v
 
     def const(self):
         r = self.rng
@@ -344,6 +394,7 @@ class AstGen:
             bd["readonly"] = False
             for f in bd["fields"]:
                 f["comment"] = None
+                f.pop("tags", None)
             b = {"disc": d, "def": bd}
             if r.below(6) == 0:
                 b["dep"] = "old branch"
